@@ -23,11 +23,14 @@ pub struct Case {
     /// number of -v flags (0..3); 4 = -q, 5 = -qq
     #[serde(default)]
     pub verbosity: u8,
+    /// --threads value (None = option not given)
+    #[serde(default)]
+    pub threads: Option<usize>,
 }
 
 pub fn strategy(params: GenParams) -> impl Strategy<Value = Case> {
     let max_samples = params.max_samples;
-    (callset_strategy(params), map_draw_strategy(max_samples), container_strategy(), prop::bool::weighted(0.08), prop_oneof![6 => Just(0u8), 1 => Just(1u8), 2 => Just(2u8), 1 => Just(3u8), 1 => Just(4u8), 1 => Just(5u8)]).prop_map(|(mut cs, draw, container, implicit, verbosity)| {
+    (callset_strategy(params), map_draw_strategy(max_samples), container_strategy(), prop::bool::weighted(0.08), prop_oneof![6 => Just(0u8), 1 => Just(1u8), 2 => Just(2u8), 1 => Just(3u8), 1 => Just(4u8), 1 => Just(5u8)], prop_oneof![3 => Just(None), 2 => Just(Some(1usize)), 1 => Just(Some(2usize)), 1 => Just(Some(4usize)), 1 => Just(Some(7usize))]).prop_map(|(mut cs, draw, container, implicit, verbosity, threads)| {
         let n = cs.samples.len();
         let map = if implicit { MapSpec::implicit_all(n) } else { resolve_map(&draw, n) };
         let selected: Vec<bool> = map.assignment(n).iter().map(|a| a.is_some()).collect();
@@ -38,6 +41,7 @@ pub fn strategy(params: GenParams) -> impl Strategy<Value = Case> {
             map: if implicit { None } else { Some(map) },
             container,
             verbosity,
+            threads,
         }
     })
 }
@@ -52,6 +56,7 @@ pub fn eval(ctx: &Ctx, case: &Case) -> Verdict {
         map: case.map.clone(),
         verbose: if case.verbosity <= 3 { case.verbosity } else { 0 },
         quiet: if case.verbosity >= 4 { case.verbosity - 3 } else { 0 },
+        threads: case.threads,
         ..Default::default()
     };
     let (run, argv) = run_create(ctx, &dir, "c01", &case.cs, &case.container, &opts, Transport::Path);
@@ -101,6 +106,13 @@ pub fn eval(ctx: &Ctx, case: &Case) -> Verdict {
         pass.add_label("no-records");
     }
     pass.add_label(format!("verbosity={}", ["default", "-v", "-vv", "-vvv", "-q", "-qq"][case.verbosity.min(5) as usize]));
+    if matches!(case.container, Container::Bcf(_) | Container::BcfRaw) && crate::gen::bcf::wide_dictionary(&case.cs) {
+        pass.add_label("bcf-with-GT-key-at-dictionary-index>127");
+    }
+    pass.add_label(match case.threads {
+        None => "threads-default".to_string(),
+        Some(t) => format!("threads={t}"),
+    });
     if case.cs.records.iter().any(|r| !r.has_gt) {
         pass.add_label("record-without-GT-key");
     }
@@ -152,10 +164,80 @@ fn eval_many(ctx: &Ctx, case: &ManyCase) -> Verdict {
     Ok(Pass::new().nontrivial(true).label(format!("records={}", case.records)))
 }
 
+#[derive(Clone, Debug, Serialize, Deserialize)]
+pub struct CellsCase {
+    pub sizes: Vec<usize>,
+    pub unlisted: usize,
+    pub bcf: bool,
+    pub seed: u64,
+}
+
+/// Four populations large enough that the spectrum has thousands of cells.
+fn eval_cells(ctx: &Ctx, case: &CellsCase) -> Verdict {
+    use crate::gen::callset::{Gt, Record};
+    let dir = ctx.worker_dir(crate::engine::worker_id());
+    let listed: usize = case.sizes.iter().sum();
+    let n = listed + case.unlisted;
+    let template = crate::props::c10::fresh_record(n);
+    let records: Vec<Record> = (0..160u64)
+        .map(|r| Record {
+            pos: 10 + 3 * r,
+            gts: (0..n as u64)
+                .map(|i| {
+                    let h = crate::engine::splitmix64(case.seed ^ (r << 20) ^ i);
+                    // allele frequency varies by record so that the counts spread over the cells
+                    let p = (r % 16) + 1;
+                    let a = ((h % 17) < p) as u8;
+                    let b = (((h >> 8) % 17) < p) as u8;
+                    if h >> 40 & 127 == 0 {
+                        Gt::diploid(None, Some(b), false)
+                    } else {
+                        Gt::diploid(Some(a), Some(b), h >> 30 & 1 == 1)
+                    }
+                })
+                .collect(),
+            ..template.clone()
+        })
+        .collect();
+    let cs = CallSet {
+        contigs: vec!["ctgCells3".into()],
+        samples: (0..n).map(|i| format!("c{i}")).collect(),
+        records,
+    };
+    // populations interleaved over the sample columns
+    let mut entries = Vec::new();
+    let mut left = case.sizes.clone();
+    let mut i = 0usize;
+    while left.iter().any(|l| *l > 0) {
+        for (j, l) in left.iter_mut().enumerate() {
+            if *l > 0 {
+                entries.push((i, Some(j)));
+                *l -= 1;
+                i += 1;
+            }
+        }
+    }
+    let map = MapSpec {
+        entries,
+        labels: vec!["w".into(), "x".into(), "y".into(), "z".into()],
+        as_file: case.bcf,
+    };
+    let want = create(&cs, &map, None);
+    let container = if case.bcf { Container::Bcf(crate::gen::bgzf::Layout::plain()) } else { Container::Vcf };
+    let (run, argv) = run_create(ctx, &dir, "c01c", &cs, &container, &CreateOpts { map: Some(map), ..Default::default() }, Transport::Path);
+    let what = format!("`sfs {}` (populations of {:?} samples)", cli::cut(&argv.join(" "), 120), case.sizes);
+    let got = cli::expect_spectrum(&run, &what)?;
+    ensure!(got.shape == want.spectrum.shape, "{what}: shape {:?}, expected {:?}", got.shape, want.spectrum.shape);
+    for (i, (g, w)) in got.values.iter().zip(&want.spectrum.values).enumerate() {
+        ensure!(g == w && got.tokens[i].bytes().all(|b| b.is_ascii_digit()), "{what}: flat cell {i} printed {:?}, the model counts {w}", got.tokens[i]);
+    }
+    Ok(Pass::new().nontrivial(want.counted >= 50 && want.skipped >= 1).label(format!("cells={}", got.values.len())))
+}
+
 pub fn check(ctx: &Ctx) -> Check {
     let parts: Vec<Box<dyn Part>> = vec![Box::new(RandomPart {
         name: "create-counts",
-        rule: "generated call sets (1..3 contigs, 1..12 samples, 0..40 records; phased/unphased, missing, multiallelic, monomorphic, symbolic ALT, up to 11 ALT alleles with two-digit allele indices, REF alleles of up to 9 000 bases (lines longer than the 8 KiB read buffer; rlen > 1 in BCF), extra INFO/FORMAT fields, records without a GT key; non-diploid genotypes only in unselected samples; record classes all-complete / all-missing / one-missing / only-unselected-incomplete forced) x sample->population maps (1..4 populations, any subset, inline or file, or no option at all) x container {vcf, bgzf vcf, bgzf bcf, raw bcf} x log verbosity {default, -v, -vv, -vvv, -q, -qq}: exit 0, shape (2n_j+1), every cell equal to the reference model's count and printed as a bare integer; non-trivial = >=1 record counted and (unequal population sizes | strict subset | >=1 skipped record | a counted record whose only incomplete sample is unselected); distinct by (call set, map, container)",
+        rule: "generated call sets (1..3 contigs, 1..12 samples, 0..40 records; phased/unphased, missing, multiallelic, monomorphic, symbolic ALT, up to 11 ALT alleles with two-digit allele indices, REF alleles of up to 9 000 bases (lines longer than the 8 KiB read buffer; rlen > 1 in BCF), extra INFO/FORMAT fields, records without a GT key; non-diploid genotypes only in unselected samples; record classes all-complete / all-missing / one-missing / only-unselected-incomplete forced) x sample->population maps (1..4 populations, any subset, inline or file, or no option at all) x container {vcf, bgzf vcf, bgzf bcf, raw bcf} x log verbosity {default, -v, -vv, -vvv, -q, -qq} x --threads {not given, 1, 2, 4, 7}: exit 0, shape (2n_j+1), every cell equal to the reference model's count and printed as a bare integer; non-trivial = >=1 record counted and (unequal population sizes | strict subset | >=1 skipped record | a counted record whose only incomplete sample is unselected); distinct by (call set, map, container)",
         cases: ctx.tier.pick(8000, 300_000),
         strategy: Box::new(|| strategy(GenParams::default()).boxed()),
         eval: Box::new(eval),
@@ -173,6 +255,21 @@ pub fn check(ctx: &Ctx) -> Check {
             v
         }),
         eval: Box::new(eval_many),
+    }));
+    parts.push(Box::new(crate::engine::EnumPart {
+        name: "many-cells",
+        rule: "call sets of 15..19 samples in four populations (4/4/4/3, 5/4/3/3, 4/4/4/4 listed, 0..2 unlisted): output spectra of 5 103 .. 6 561 cells (a text line beyond 8 KiB / 4096 values), every cell against the model, in VCF and BGZF-BCF",
+        exhaustive: false,
+        cases: Box::new(|_| {
+            let mut v = Vec::new();
+            for (k, sizes) in [[4usize, 4, 4, 3], [5, 4, 3, 3], [4, 4, 4, 4]].iter().enumerate() {
+                for bcf in [false, true] {
+                    v.push(CellsCase { sizes: sizes.to_vec(), unlisted: k % 3, bcf, seed: 0xCE11 + k as u64 });
+                }
+            }
+            v
+        }),
+        eval: Box::new(eval_cells),
     }));
     parts.push(Box::new(RandomPart {
         name: "decoded-bytes-vs-model",
